@@ -833,14 +833,22 @@ func cloneRS(rs []aTable) []aTable {
 }
 
 // the device's rule set: the target's, possibly with a semantic change
+// resumeMut: the resume streams want a device that really differs and stays inside the class of C05
+// (no `none`, no mask-only change of a MARK rule)
+var resumeMut bool
+
 func mutateRS(rng *RNG, tgt []aTable, res *Result, allowExtraTable bool) []aTable {
 	dev := cloneRS(tgt)
-	if rng.Chance(45) || len(dev) == 0 {
+	nonePct, maskPct := 45, 35
+	if resumeMut {
+		nonePct, maskPct = 10, 0
+	}
+	if rng.Chance(nonePct) || len(dev) == 0 {
 		res.Count("ipt-mutation:none")
 		return dev
 	}
 	// a MARK rule that differs only in the mask
-	if rng.Chance(35) {
+	if rng.Chance(maskPct) {
 		for ti := range dev {
 			for ci := range dev[ti].Chains {
 				for _, r := range dev[ti].Chains[ci].Rules {
@@ -1558,8 +1566,28 @@ func runC05(ctx *Ctx) *Result {
 	genIptResume := func(rng *RNG) *c05Case {
 		c := &c05Case{Abstract: true, Names: rng.Bool(), Stream: "ipt-resume", FailAt: -1}
 		c.DevRoutes, c.TgtRoutes, _ = genRoutes(rng, routeGenOpts{multiHop: rng.Chance(25), max: 5}, res)
-		c.TgtRS = genRS(rng, ruleOpts{})
+		masked := func(rs []aTable) bool {
+			for _, tb := range rs {
+				for _, ch := range tb.Chains {
+					for _, r := range ch.Rules {
+						for _, o := range r {
+							if f := strings.Split(o, "~"); f[0] == "mk" && len(f) > 2 && f[2] != "ffffffff" {
+								return true
+							}
+						}
+					}
+				}
+			}
+			return false
+		}
+		for try := 0; try < 8; try++ { // a MARK with a mask is outside the class (F-C05k): draw again
+			if c.TgtRS = genRS(rng, ruleOpts{}); !masked(c.TgtRS) {
+				break
+			}
+		}
+		resumeMut = true
 		c.DevRS = mutateRS(rng, c.TgtRS, res, false)
+		resumeMut = false
 		if rng.Chance(15) {
 			c.DevRS = nil // a fresh host
 		}
@@ -1608,14 +1636,14 @@ func runC05(ctx *Ctx) *Result {
 			"behind the load or at mv (loaded, start-up file not yet replaced), behind mv (between the two start-up copies) (stream ipt-resume); the state the host is left in is " +
 			"computed by the Lean specification; a second undisturbed approve must succeed and converge (routes: strict kernel table; iptables: the target's rule set loaded) " +
 			"and a further compare must report nothing; the start-up files are tracked as well. non-trivial = the plan had at least one changing command"
-		for i := 0; i < ctx.N(30, 600); i++ {
+		for i := 0; i < ctx.N(16, 600); i++ {
 			rng := base.Fork()
 			c := &c05Case{Abstract: true, Stream: "device-resume"}
 			c.DevRoutes, c.TgtRoutes, _ = genRoutes(rng, routeGenOpts{multiHop: rng.Chance(30), dupTarget: rng.Chance(8), max: 7}, res)
 			c.FailAt = rng.Intn(9)
 			runDeviceResume(c)
 		}
-		for i := 0; i < ctx.N(40, 800); i++ {
+		for i := 0; i < ctx.N(24, 800); i++ {
 			runIptResume(genIptResume(base.Fork()))
 		}
 		return res
